@@ -94,7 +94,12 @@ def handle (I : Interner) (line : Json) : Json :=
     match (Gen.ClassRows.rows ++ Gen.ClassRows.excluded).find? (fun r => r.label == label) with
     | none => Json.mkObj [("proto_error", Json.str ("unknown class row " ++ label))]
     | some r =>
-      let m := tagsOf r.members counts
+      -- extension elements of the instance (namespace URI, local name), interned like the document trees
+      let exts : List QN := (arrD c "exts").map fun p =>
+        match p with
+        | .arr b => I.qn (jstr (b[0]?.getD Json.null)) (jstr (b[1]?.getD Json.null))
+        | _ => ⟨0, 0⟩
+      let m := tagsOfExt r.members counts exts
       let toJ (l : List QN) : Json := jarr (l.map fun q => jarr [toJson q.ns, toJson q.id])
       let it : List QN := (arrD impl "tags").map fun p =>
         match p with
@@ -103,12 +108,18 @@ def handle (I : Interner) (line : Json) : Json :=
       let claimed := Gen.ClassRows.rows.any (fun r' => r'.label == label)
       let compat := orderCompat r.ps r.members
       let inst := instOk r.members counts
+      let extc := extCompat r.ps r.members
+      let exok := extsOk r.ps exts
       let path := "order/" ++ (if claimed then "claimed" else "excluded") ++ (if compat then "/compat" else "/not-compat") ++
-        (if inst then "/inst-ok" else "/inst-not-ok")
+        (if inst then "/inst-ok" else "/inst-not-ok") ++
+        (if exts.isEmpty then "" else (if extc then "/ext-compat" else "/ext-not-compat") ++ (if exok then "/exts-ok" else "/exts-not-ok") ++
+          (if isExtContainer r then "/container" else ""))
       -- the claim (C13_order_table_valid) covers the claimed rows and instances within the class's own cardinalities;
       -- a claimed row is constrained even when its regenerated form is no longer compatible (then the theorem is broken
       -- as well and this case is the concrete failing instance)
-      let constrained := claimed && inst
+      -- with extension elements the claim is C13_order_ext_partial (and C13_ext_container_valid for the two Extensions
+      -- classes): members compatible up to the final unbounded particle, extension elements admitted by it
+      let constrained := if exts.isEmpty then claimed && inst else inst && extc && exok && particlesOf S r.elem r.ps
       Json.mkObj [("model", Json.mkObj [("tags", toJ m)]), ("path", path),
         ("spec_model", !constrained || specOrder r.ps m), ("spec_impl", !constrained || specOrder r.ps it),
         ("why", if !constrained || specOrder r.ps it then "" else "serialised child order is outside the XSD content model")]
